@@ -196,7 +196,10 @@ def template_rule(ctx, chk, rule, f, name_term, table, source_of, tail_spec, hea
         i += 2
     rest = pieces[i:]
     tail_ok, tail_text = tail_spec(rest)
-    if not tail_ok:
+    if tail_ok is None:
+        ok = False
+        chk.undecided(rule, where, "file-name template `%s`: %s" % (text, tail_text))
+    elif not tail_ok:
         ok = False
         chk.violation(rule, where, "file-name template `%s`: tail %s" % (text, tail_text), expected="force-down suffix chosen by the flag, then '.py'", found=text,
                       construct="%s name tail" % f.short)
@@ -282,7 +285,27 @@ def r2_templates(ctx, chk, rule="C17.2"):
                     if h[0] == "fmt" and h[2] == -1 and h[3] is None:
                         h = h[1]
                     if h[0] == "ite" and h[2] == C("force_down") and h[3] == C(""):
-                        return True, "suffix 'force_down' iff a down-only tile exists"
+                        # the condition must say "the board has a down-only tile": true exactly when the largest arrow code is 3
+                        from ..symx import subst, deep_simp
+                        mp = [q for q in f2.params if "move" in q]
+                        cands = [v for v in env.values() if isinstance(v, tuple) and mp and any(t == ("v", mp[0]) for t in C08_sub(v)) and v != ("v", mp[0])
+                                 and any(t == v for t in C08_sub(h[1]))]
+                        cands.sort(key=lambda v: len(C08_sub(v)))
+                        if not cands:
+                            return False, "the force-down suffix is chosen by `%s`, which does not look at the arrows" % show(h[1])[:80]
+                        mt = cands[0]
+                        verdicts = []
+                        for k_ in (0, 1, 2, 3):
+                            c_ = deep_simp(subst(h[1], lambda x: C(k_) if x == mt else None))
+                            if c_[0] == "truthy" and c_[1][0] == "c":
+                                c_ = C(bool(c_[1][1]))
+                            verdicts.append(c_)
+                        if all(v in (TRUE, FALSE) for v in verdicts):
+                            if [v == TRUE for v in verdicts] == [False, False, False, True]:
+                                return True, "suffix 'force_down' iff the largest arrow code is 3 (a down-only tile exists)"
+                            return False, "the force-down suffix is chosen by `%s`: for largest arrow code 0,1,2,3 this gives %s, specification: only for 3" % (
+                                show(h[1])[:80], [v == TRUE for v in verdicts])
+                        return None, "force-down condition `%s` not evaluated" % show(h[1])[:80]
                     return False, "`%s`" % show(h)
                 return False, "pieces %s" % [(k, v if k == "lit" else show(v)[:40]) for k, v in rest]
             template_rule(ctx, chk, rule, f2, name_term, MANUAL_TABLE, src_of, tail2, "inputs/manual_robot_")
